@@ -28,6 +28,7 @@ class E:
 class P:
     def __init__(self, toks):
         self.t, self.i = toks, 0
+        self.body_spans = []          # ((kind, name), first token index, end index) of every algorithm's statement list
 
     def peek(self, k=0):
         return self.t[self.i + k] if self.i + k < len(self.t) else ("eof",)
@@ -195,7 +196,9 @@ class P:
                 self.eat(S(";"))
                 end = K("END_" + t[1])
                 inner = self.scope_body((end,))
+                a0 = self.i
                 stmts = self.stmts((end,))
+                self.body_spans.append(((kind, n), a0, self.i))
                 self.eat(end); self.eat(S(";"))
                 add((kind, n), {"params": params, "returns": ret, **inner, "body": stmts})
             elif t == K("RULE"):
@@ -204,7 +207,9 @@ class P:
                 while self.opt(S(",")): pop.append(self.ident())
                 self.eat(S(")")); self.eat(S(";"))
                 inner = self.scope_body((K("WHERE"), K("END_RULE")))
+                a0 = self.i
                 stmts = self.stmts((K("WHERE"), K("END_RULE")))
+                self.body_spans.append((("rule", n), a0, self.i))
                 ws = self.wheres()
                 self.eat(K("END_RULE")); self.eat(S(";"))
                 add(("rule", n), {"for": pop, **inner, "body": stmts, "where": ws})
@@ -723,6 +728,124 @@ def collapse_entity(toks):
                 out += ["i:" + p.ident(), "s::"]; p.eat()
             p.expr_until(S(";")); p.eat(S(";")); out += ["E", "s:;"]
     p.eat(K("END_ENTITY")); p.eat(S(";")); out += ["k:END_ENTITY", "s:;"]
+    return " ".join(out)
+
+
+def algorithm_bodies(ast):
+    """[((kind, name), statement list)] of every function / procedure / rule of a parsed schema, nested ones too"""
+    out = []
+    def walk(scope):
+        for key, val in scope["decls"].items():
+            if key[0] in ("function", "procedure", "rule"):
+                out.append((key, val["body"]))
+                walk(val)
+    walk(ast)
+    return out
+
+
+def enc_stmt(s):
+    """statement AST (P.stmt) -> request words of the Lean driver (`stmts`); embedded expressions are not sent"""
+    k = s[0]
+    if k == "assign": return "AS"
+    if k == "call": return f"CL {hx(s[1])} {len(s[2])}"
+    if k == "return": return f"RT {int(s[1] is not None)}"
+    if k == "skip": return "SK"
+    if k == "escape": return "ES"
+    if k == "begin": return enc_stmts(s[1], "BG")
+    if k == "if": return f"IF {int(bool(s[3]))} " + enc_stmts(s[2]) + " " + enc_stmts(s[3])
+    if k == "case":
+        w = [f"CS {len(s[2])}"]
+        for labels, action in s[2]:
+            w += [str(len(labels)), enc_stmt(action)]
+        w.append(str(int(s[3] is not None)))
+        if s[3] is not None: w.append(enc_stmt(s[3]))
+        return " ".join(w)
+    if k == "repeat":
+        c = s[1]
+        return " ".join(["LP", str(int(c["var"] is not None))] + ([hx(c["var"])] if c["var"] is not None else [])
+                        + [str(int(c["while"] is not None)), str(int(c["until"] is not None)), enc_stmts(s[2])])
+    if k == "alias": return f"AL {hx(s[1])} " + enc_stmts(s[3])
+    raise DeclError(f"statement {s} has no Lean form")
+
+
+def enc_stmts(body, tag=None):
+    return " ".join(([tag] if tag else []) + [str(len(body))] + [enc_stmt(x) for x in body])
+
+
+def collapse_stmts(toks):
+    """tokens of a statement list printed by exppp -> the driver's token text (every expression becomes `E`)"""
+    END = K("END_OF_SLICE")
+    p = P(list(toks) + [END]); out = []
+    def stmts(ends):
+        while not p.at(*ends):
+            stmt()
+    def stmt():
+        t = p.peek()
+        if t == K("IF"):
+            p.eat(); p.expr_until(K("THEN")); p.eat(K("THEN")); out.extend(["k:IF", "E", "k:THEN"])
+            stmts((K("ELSE"), K("END_IF")))
+            if p.opt(K("ELSE")):
+                out.append("k:ELSE"); stmts((K("END_IF"),))
+            p.eat(K("END_IF")); p.eat(S(";")); out.extend(["k:END_IF", "s:;"]); return
+        if t == K("REPEAT"):
+            p.eat(); out.append("k:REPEAT")
+            if p.peek()[0] == "id" and p.peek(1) == S(":="):
+                out.extend(["i:" + p.ident(), "s::="]); p.eat()
+                p.expr_until(K("TO")); p.eat(K("TO")); out.extend(["E", "k:TO"])
+                p.expr_until(K("BY"), K("WHILE"), K("UNTIL"), S(";")); out.append("E")
+                if p.opt(K("BY")):
+                    p.expr_until(K("WHILE"), K("UNTIL"), S(";")); out.extend(["k:BY", "E"])
+            if p.opt(K("WHILE")):
+                p.expr_until(K("UNTIL"), S(";")); out.extend(["k:WHILE", "E"])
+            if p.opt(K("UNTIL")):
+                p.expr_until(S(";")); out.extend(["k:UNTIL", "E"])
+            p.eat(S(";")); out.append("s:;")
+            stmts((K("END_REPEAT"),)); p.eat(K("END_REPEAT")); p.eat(S(";")); out.extend(["k:END_REPEAT", "s:;"]); return
+        if t == K("CASE"):
+            p.eat(); p.expr_until(K("OF")); p.eat(K("OF")); out.extend(["k:CASE", "E", "k:OF"])
+            while not p.at(K("END_CASE")):
+                if p.opt(K("OTHERWISE")):
+                    p.eat(S(":")); out.extend(["k:OTHERWISE", "s::"]); stmt(); continue
+                p.expr_until(S(","), S(":")); out.append("E")
+                while p.opt(S(",")):
+                    p.expr_until(S(","), S(":")); out.extend(["s:,", "E"])
+                p.eat(S(":")); out.append("s::"); stmt()
+            p.eat(K("END_CASE")); p.eat(S(";")); out.extend(["k:END_CASE", "s:;"]); return
+        if t == K("BEGIN"):
+            p.eat(); out.append("k:BEGIN"); stmts((K("END"),)); p.eat(K("END")); p.eat(S(";")); out.extend(["k:END", "s:;"]); return
+        if t == K("ALIAS"):
+            p.eat(); out.extend(["k:ALIAS", "i:" + p.ident()]); p.eat(K("FOR")); p.expr_until(S(";")); p.eat(S(";"))
+            out.extend(["k:FOR", "E", "s:;"])
+            stmts((K("END_ALIAS"),)); p.eat(K("END_ALIAS")); p.eat(S(";")); out.extend(["k:END_ALIAS", "s:;"]); return
+        if t == K("RETURN"):
+            p.eat(); out.append("k:RETURN")
+            if p.opt(S("(")):
+                p.expr_until(S(")")); p.eat(S(")")); out.extend(["s:(", "E", "s:)"])
+            p.eat(S(";")); out.append("s:;"); return
+        if t == K("SKIP") or t == K("ESCAPE"):
+            p.eat(); p.eat(S(";")); out.extend(["k:" + t[1], "s:;"]); return
+        if t[0] == "id" or t == ("kw", "SELF"):
+            j, depth = p.i, 0
+            while True:
+                u = p.t[j] if j < len(p.t) else ("eof",)
+                if u == ("eof",): raise DeclError("statement not terminated")
+                if u in (S("("), S("[")): depth += 1
+                elif u in (S(")"), S("]")): depth -= 1
+                elif depth == 0 and u in (S(":="), S(";")): break
+                j += 1
+            if p.t[j] == S(":="):
+                p.i = j + 1; p.expr_until(S(";")); p.eat(S(";")); out.extend(["E", "s::=", "E", "s:;"]); return
+            out.append("i:" + p.ident())
+            if p.opt(S("(")):
+                out.append("s:(")
+                if not p.at(S(")")):
+                    p.expr_until(S(","), S(")")); out.append("E")
+                    while p.opt(S(",")):
+                        p.expr_until(S(","), S(")")); out.extend(["s:,", "E"])
+                p.eat(S(")")); out.append("s:)")
+            p.eat(S(";")); out.append("s:;"); return
+        raise DeclError(f"statement expected, got {t}")
+    stmts((END,))
     return " ".join(out)
 
 
